@@ -2,6 +2,7 @@ package main
 
 import (
 	"fmt"
+	"os"
 	"go/ast"
 	"go/token"
 	"go/types"
@@ -15,6 +16,7 @@ const prelude = `(set-logic ALL)
 (declare-fun strkey ((Array Int Int) Int Int) Int)
 (declare-fun strc (Int Int) Int)
 (declare-fun ifptr (Int) Int)
+(declare-fun ifval (Int) Int)
 (declare-fun iftype (Int) Int)
 (declare-fun subtag (Int) Int)
 (declare-fun arrtag (Int) Int)
@@ -74,7 +76,13 @@ func (P *Program) Verify(fn *ssa.Function, spec *FuncSpec, hooks *Hooks) (res *F
 	res = &FuncResult{Fn: fn, Name: fnDisplayName(fn), Spec: spec}
 	defer func() {
 		if r := recover(); r != nil {
+			if os.Getenv("GVC_PANIC") != "" {
+				panic(r)
+			}
 			if u, ok := r.(unsupported); ok {
+				if g.curInstr != nil && g.curInstr.Pos().IsValid() {
+					u.why += fmt.Sprintf(" (near %s)", P.fset.Position(g.curInstr.Pos()))
+				}
 				res.Unsupported = u.why
 				res.Obls = nil
 				return
@@ -873,6 +881,11 @@ func (g *Gen) doReturn(st *State, r *ssa.Return) {
 	post := st.clone()
 	env0 := g.specEnv(g.entry, g.entry)
 	g.applyUpdates(post, g.entry, env0, g.spec)
+	if len(g.spec.PostUpdates) > 0 {
+		penv := g.specEnv(post, g.entry)
+		g.bindResults(penv, sig.Results(), res, g.fn)
+		g.applyPostUpdates(post, g.entry, penv, g.spec)
+	}
 	// bridges: the declared (entry-relative) ghost update equals this expression over the ghost state
 	// reached at the return point; proved per bridge, then available as a rewrite for the postconditions
 	for _, br := range g.spec.Bridges {
